@@ -2944,6 +2944,23 @@ func (p *Posix) PutObject(ctx context.Context, po s3response.PutObjectInput) (s3
 			return s3response.PutObjectOutput{}, err
 		}
 
+		// the directory and with it its attributes outlive the request:
+		// an upload replaces the user metadata of an earlier upload of the
+		// same directory object
+		attrs, err := p.meta.ListAttributes(*po.Bucket, *po.Key)
+		if err != nil && !errors.Is(err, meta.ErrNoSuchKey) {
+			return s3response.PutObjectOutput{}, fmt.Errorf("list attributes: %w", err)
+		}
+		for _, attr := range attrs {
+			if !strings.HasPrefix(attr, metaHdr+".") {
+				continue
+			}
+			err := p.meta.DeleteAttribute(*po.Bucket, *po.Key, attr)
+			if err != nil && !errors.Is(err, meta.ErrNoSuchKey) {
+				return s3response.PutObjectOutput{}, fmt.Errorf("remove user attr %q: %w", attr, err)
+			}
+		}
+
 		for k, v := range po.Metadata {
 			err := p.meta.StoreAttribute(nil, *po.Bucket, *po.Key,
 				fmt.Sprintf("%v.%v", metaHdr, k), []byte(v))
